@@ -1221,6 +1221,134 @@ fn main() {
             }
             cx.rec.end_case(whale as u64, true);
         }
+        // ---- further node-level cases (oracle only): one real node with n validators, honest messages built with the
+        // crate's own constructors and handed to the private all-to-all handler
+        use ag_harness::poolkit::{self, CK, K};
+        let nkeys = poolkit::Keys::new(&mut Rng::new(0xA1A1));
+        let mk_node = |stakes: &[u64], own: usize| {
+            let _g = rt.enter();
+            let a2a: UdpNetwork<ConsensusMessage, ConsensusMessage> = UdpNetwork::new_with_any_port();
+            let dis: UdpNetwork<Shred, Shred> = UdpNetwork::new_with_any_port();
+            let rq: UdpNetwork<RepairRequest, RepairResponse> = UdpNetwork::new_with_any_port();
+            let rp: UdpNetwork<RepairResponse, RepairRequest> = UdpNetwork::new_with_any_port();
+            let txs: UdpNetwork<Transaction, Transaction> = UdpNetwork::new_with_any_port();
+            let validators: Vec<ValidatorInfo> = stakes.iter().enumerate().map(|(k, st)| ValidatorInfo {
+                id: ValidatorIndex::new(k as u64),
+                stake: Stake::new(*st),
+                pubkey: nkeys.pks[k].clone(),
+                voting_pubkey: nkeys.vpks[k].clone(),
+                all2all_address: localhost_ip_sockaddr(a2a.port()),
+                disseminator_address: localhost_ip_sockaddr(dis.port()),
+                repair_requester_address: localhost_ip_sockaddr(rq.port()),
+                repair_responder_address: localhost_ip_sockaddr(rp.port()),
+            }).collect();
+            let epoch = EpochInfo::new(validators.clone());
+            let vei = std::sync::Arc::new(ValidatorEpochInfo::new(ValidatorIndex::new(own as u64), epoch.clone()));
+            let node = Alpenglow::new(nkeys.sks[own].clone(), nkeys.vsks[own].clone(), TrivialAll2All::new(validators.clone(), a2a), TrivialDisseminator::new(validators.clone(), dis), rq, rp, vei, txs);
+            (node, epoch, validators)
+        };
+        // (C02, second sentence; C09: a valid vote is admitted whoever signed it) The all-to-all broadcast delivers a node's
+        // own votes back to it like anybody else's, and that is the only way they reach its pool: a validly signed vote
+        // naming the receiving node itself must be admitted AND counted.  Five equal validators, one crashed: the four
+        // live ones (the node among them) hold exactly 80 % - slot 1 must be fast-finalized by their notarization votes;
+        // slot 2: the node and two others (60 %) notarize and finalize it in two rounds.
+        for (ci, own) in [0usize, 3, 2].into_iter().enumerate() {
+            cx.rec.begin_case(&format!("node-own-vote own={own}"));
+            let crashed = (own + 1 + rng.below(4) as usize) % 5;
+            let (node, epoch, _) = mk_node(&[1; 5], own);
+            let pool = node.get_pool();
+            let mut live: Vec<usize> = (0..5).filter(|v| *v != crashed).collect();
+            match ci { 0 => { live.retain(|v| *v != own); live.push(own); } 1 => { live.retain(|v| *v != own); live.insert(0, own); } _ => rng.shuffle(&mut live) }
+            let deliver = |cx: &mut Cx, k: K, slot: u64, h: usize, v: usize| {
+                let vote = poolkit::raw_vote(&nkeys, k, slot, h, v);
+                let admissible = ValidatedVote::try_new(vote.clone(), &epoch).is_ok();
+                let r = catch(|| rt.block_on(node.verif_handle_all2all_message(ConsensusMessage::Vote(vote))));
+                cx.rec.oracle(r.is_ok() && admissible, "c09-node-handler-panics", || format!("node {own}: handler panicked on (or the harness built an inadmissible) {} vote for slot {slot} of validator {v}", k.name()));
+                cx.rec.count(if v == own { "node-own-vote:own-vote-delivered" } else { "node-own-vote:other-vote-delivered" });
+                if v == own {
+                    // the pool remembers the vote: a second copy offered to it directly is a duplicate (or the slot is decided and pruned)
+                    let vv = ValidatedVote::try_new(poolkit::raw_vote(&nkeys, k, slot, h, v), &epoch).expect("valid");
+                    let again = rt.block_on(async { pool.write().await.add_vote(vv).await });
+                    cx.rec.oracle(again.is_err(), "c02-own-vote-not-counted", || format!("node {own} of 5 equal validators received its own, validly signed {} vote for slot {slot} over all-to-all (the broadcast loops back; nothing else hands it to the pool) but the pool never saw it: a second copy given to the pool directly is accepted as new", k.name()));
+                }
+            };
+            for &v in &live { deliver(&mut cx, K::Notar, 1, 1, v); }
+            let fin = rt.block_on(async { pool.read().await.finalized_slot().inner() });
+            cx.rec.oracle(fin == 1, "c02-own-vote-not-counted", || format!("node {own} of 5 equal validators ({crashed} crashed) received the notarization votes for slot 1 of validators {live:?} in this order over all-to-all - its own, validly signed vote among them: 80 % of the stake, one voting round - but its pool reports finalized slot {fin}, not 1 (fast finalization)"));
+            let others: Vec<usize> = live.iter().copied().filter(|v| *v != own).take(2).collect();
+            let mut trio = vec![own, others[0], others[1]];
+            rng.shuffle(&mut trio);
+            for &v in &trio { deliver(&mut cx, K::Notar, 2, 5, v); }
+            for &v in &trio { deliver(&mut cx, K::Final, 2, 0, v); }
+            let fin = rt.block_on(async { pool.read().await.finalized_slot().inner() });
+            cx.rec.oracle(fin == 2, "c02-own-vote-not-counted", || format!("node {own} of 5 equal validators received notarization and finalization votes for slot 2 of validators {trio:?} (its own among them, 60 % of the stake) but its pool reports finalized slot {fin}, not 2"));
+            cx.rec.end_case(0xC02 ^ ci as u64, true);
+        }
+        // (C08, second sentence: "certificates for slots that are not yet decided are still accepted"; C09: a sufficiently
+        // backed certificate is admitted) The node learns that slot `top` is finalized while the slots below it are still
+        // undecided (it missed their votes), then the deciding certificates of those gap slots arrive over all-to-all
+        // (catch-up / standstill re-broadcast), in any order.  Each of them is for a slot at or above the watermark: it
+        // must reach the pool (held afterwards, unless the call itself decided and pruned the slot), and once every slot
+        // up to `top` is decided the watermark is `top`.
+        let ngap = if args.thorough { 24 } else { 5 };
+        for ci in 0..ngap {
+            let n = rng.range(3, 7) as usize;
+            let stakes: Vec<u64> = (0..n).map(|_| rng.range(1, 5)).collect();
+            let total: u64 = stakes.iter().sum();
+            let own = rng.below(n as u64) as usize;
+            let top = rng.range(2, 6);
+            cx.rec.begin_case(&format!("node-gap-certs n={n} top={top}"));
+            let (node, epoch, validators) = mk_node(&stakes, own);
+            let pool = node.get_pool();
+            let mut signers = |rng: &mut Rng, num: u64| -> Vec<usize> {
+                let mut order: Vec<usize> = (0..n).collect();
+                rng.shuffle(&mut order);
+                let (mut acc, mut out) = (0u64, Vec::new());
+                for v in order { if poolkit::met(num, acc, total) && rng.chance(2, 3) { break; } out.push(v); acc += stakes[v]; }
+                out.sort();
+                out
+            };
+            // the deciding certificates of slot s (block id 4 s - 3): fast-final, or notarization + finalization
+            let mut certs_of = |rng: &mut Rng, s: u64| -> Vec<(CK, Cert)> {
+                let h = (4 * s - 3) as usize;
+                if rng.chance(1, 2) { vec![(CK::Ff, poolkit::build_cert(&nkeys, CK::Ff, s, h, &signers(rng, 4), &[], &validators))] } else {
+                    let mut v = vec![(CK::Notar, poolkit::build_cert(&nkeys, CK::Notar, s, h, &signers(rng, 3), &[], &validators)), (CK::Final, poolkit::build_cert(&nkeys, CK::Final, s, 0, &signers(rng, 3), &[], &validators))];
+                    if rng.chance(1, 2) { v.swap(0, 1); }
+                    v
+                }
+            };
+            let mut seq: Vec<(u64, CK, Cert)> = certs_of(&mut rng, top).into_iter().map(|(k, c)| (top, k, c)).collect();
+            let mut lower: Vec<(u64, CK, Cert)> = Vec::new();
+            for s in 1..top { lower.extend(certs_of(&mut rng, s).into_iter().map(|(k, c)| (s, k, c))); }
+            match rng.below(3) { 0 => {} 1 => lower.reverse(), _ => rng.shuffle(&mut lower) }
+            seq.extend(lower);
+            let mut ok_so_far = true;
+            for (i, (s, k, c)) in seq.iter().enumerate() {
+                let admissible = ValidatedCert::try_new(c.clone(), &epoch).is_ok();
+                let hi0 = rt.block_on(async { pool.read().await.finalized_slot().inner() });
+                let r = catch(|| rt.block_on(node.verif_handle_all2all_message(ConsensusMessage::Cert(c.clone()))));
+                cx.rec.oracle(r.is_ok() && admissible, "c09-node-handler-panics", || format!("node-gap-certs: handler panicked on (or the harness built an inadmissible) {} certificate for slot {s}", k.name()));
+                if *s < hi0 { cx.rec.count("node-gap-certs:cert-below-highest-finalized"); }
+                // it reached the pool: a second copy offered to the pool directly is a duplicate (held) or out of bounds
+                // (the slot got decided and pruned); `Ok` means the pool sees it for the first time
+                let vc = ValidatedCert::try_new(c.clone(), &epoch).expect("valid");
+                let again = rt.block_on(async { pool.write().await.add_cert(vc).await });
+                cx.rec.count(&format!("node-gap-certs:second-copy-{}", match &again { Ok(()) => "accepted-as-new".to_string(), Err(e) => format!("{e:?}") }));
+                ok_so_far &= again.is_err();
+                cx.rec.oracle(again.is_err(), "c08-node-drops-undecided-slot-cert", || format!("node {own} (stakes {stakes:?}) with highest finalized slot {hi0} received a valid {} certificate for the still undecided slot {s} over all-to-all (message {i} of the case; sequence {:?}): it never reached the pool - a second copy given to the pool directly is accepted as new", k.name(), seq.iter().map(|(s, k, _)| format!("{}@{s}", k.name())).collect::<Vec<_>>()));
+            }
+            // every slot up to `top` is decided now: nothing below `top` is accepted any more, `top` is the finalized slot
+            let hi = rt.block_on(async { pool.read().await.finalized_slot().inner() });
+            let mut accepted_below: Vec<u64> = Vec::new();
+            for s in 1..top {
+                let all: Vec<usize> = (0..n).collect();
+                let probe = ValidatedCert::try_new(poolkit::build_cert(&nkeys, CK::Nf, s, (4 * s - 3) as usize, &all, &[], &validators), &epoch).expect("valid");
+                let r = rt.block_on(async { pool.write().await.add_cert(probe).await });
+                if !matches!(r, Err(alpenglow::consensus::AddCertError::SlotOutOfBounds)) { accepted_below.push(s); }
+            }
+            cx.rec.oracle(!ok_so_far || (accepted_below.is_empty() && hi == top), "c08-node-watermark-behind", || format!("node {own} (stakes {stakes:?}) received the deciding certificates (fast-final, or notarization + finalization) of every slot 1..={top}, the ones of slot {top} first: highest finalized slot {hi} (should be {top}); a notar-fallback certificate is still admitted for the decided slots {accepted_below:?}"));
+            cx.rec.end_case(0xC08 ^ (ci as u64) << 8 ^ top, true);
+        }
     }
     let extra = serde_json::json!({ "max_validators": max_n, "rounds": rounds, "threshold_verdicts": per_ty, "kinds": KINDS });
     cx.rec.finish(&args, extra);
